@@ -4,7 +4,8 @@
 
    call event: id = table row; nl lanes; alias = aliasing mode of the call (Layout.tla AliasModes), aj = the lane whose cell
      holds the broadcast scalar in modes sc / sa; dlv, des, dl = designation level, family and lane (Layout.tla DesLevels /
-     DesFamilies): dlv = "base": operands a and b were given by the same base pointer (one array of esh elements), "word":
+     DesFamilies): dlv = "sep": two arrays with related address sequences, "base": operands a and b were given by the same
+     base pointer (one array of esh elements), "word":
      separate storage, the operand words related; ixo = both index lists were one object; sa sb sc = stride arguments, ia ib ic = index-list arguments passed;
      aa ab ac = per lane, the arena index the driver designated (it wrote the operand value there, resp. reads the
      result from there); ea eb ec = number of arena elements in front of the inaccessible page (minus the pad cell);
@@ -56,14 +57,15 @@ OkCall(e) ==
         \* designation family of the two operands: the driver shaped the designations as it says
         /\ e.dlv \in DesLevels /\ e.des \in DesFamilies /\ e.dl \in Lanes(n) /\ e.ixo \in BOOLEAN
         /\ (e.dlv = "none") = (e.des = "none")
-        /\ (e.dlv = "base" =>
+        /\ (e.dlv \in {"sep", "base"} =>
               /\ SameBaseAllowed(row) /\ e.alias \in {"none", "ca", "cb"}
               /\ DesRel(e.des, n, e.aa, e.ab, e.dl)
-              /\ SharedConsistent(n, e.aa, e.ab, e.a, e.b)             \* one array: a cell both designate holds one word
-              /\ e.esh = Max2(e.ea, e.eb)
               /\ (e.alias # "none" => e.des = "eq" /\ e.ac = e.aa))    \* in place: one address map for all three
+        /\ (e.dlv = "base" =>
+              /\ SharedConsistent(n, e.aa, e.ab, e.a, e.b)             \* one array: a cell both designate holds one word
+              /\ e.esh = Max2(e.ea, e.eb))
         /\ (e.dlv = "word" => row.op # "copy" /\ e.alias = "none" /\ DesRel(e.des, n, e.a, e.b, e.dl))
-        /\ (e.ixo => e.dlv = "base" /\ row.a.kind = "index" /\ row.b.kind = "index" /\ e.ia = e.ib)
+        /\ (e.ixo => e.dlv \in {"sep", "base"} /\ row.a.kind = "index" /\ row.b.kind = "index" /\ e.ia = e.ib)
         \* every lane: the field operation on the operand values held before the call (whatever the designation family)
         /\ IF InMemory(row.c)
              THEN \A k \in Lanes(n) : CellOk(row.op, row.c, n, e.sc, e.ic, Addr(row.c, k, e.sc, e.ic), e.r[k + 1], e.a, bv)
